@@ -147,7 +147,7 @@ def _run_part(exe, lines, timeout):
     return outs
 
 
-def run_cases(ctx, exe, cases, timeout=1500, procs=4):
+def run_cases(ctx, exe, cases, timeout=1500, procs=3):
     """run the driver on all cases (a few driver processes side by side; every case is independent of the others)"""
     import concurrent.futures
     lines = cases.lines
